@@ -223,3 +223,89 @@ Theorem C08_model_sources_reviewed :
     Sylt.Doc.DocSrcDigest.doc_src_digests Sylt.Gen.GenSrcDigest.src_digests = true.
 Proof. vm_compute. reflexivity. Qed.
 Print Assumptions C08_model_sources_reviewed.
+
+(* ---------------------------------------------------------------------------------------------------------------
+   C08 at the RESOLVER (resolver agent; Resolve/AnnErase.v, AnnEraseProofs.v, AnnEraseLua.v; the resolver model's
+   source tie is pinned in Props/C09.v).  The theorems above start from resolved programs that are equal modulo
+   annotations; these show that name resolution itself produces such programs.
+
+   erase_ann hd hp hr rewrites, on the parser's AST the resolver consumes, the annotation of every definition
+   (`x: T = e`, `x: T : e`) by hd, of every parameter of a function literal by hp, and every return type of a function
+   literal by hr; `implied` forgets the annotation, the identity keeps it, so every choice of which KINDS of annotations
+   to erase is an instance.  Blob / enum declarations, externals and blob instantiations are left alone.
+
+   C08_resolve_erase_ann   if the resolver accepts the program with result r, it accepts the program with the annotations
+                      rewritten (by any hd hp hr under which a type that resolves still resolves) with a result r' such that
+                      same_modulo_annotations r r': the same variable table (same numbering), and the same statements once
+                      every type component is replaced by one fixed type -- same scoping, same everything else.
+                      For every setting of the regenerated flags.  (The converse is false: an annotation may name an unknown
+                      type, so the annotated program can be rejected while the erased one is accepted.)
+   C08_resolver_then_bytes  resolve annotated = Ok r1 -> resolve erased = Ok r2 -> both accepted by the type checker
+                      (compile_after_order .. = COk) -> the same bytes.
+   C08_seed_example   the program of the round-5 seed (global `step`, local `step: fn int -> int : twice(step)` against
+                      `step :: twice(step)`): with and without the annotation the inner `step` is the GLOBAL one.
+   Not covered here: the dependency order between resolution and type checking (`statement_dependencies` adds the type
+   names of an annotation to the dependencies of a definition; they only name blob / enum statements, which
+   types_first moves to the front anyway -- not proved), and the parser. *)
+From Sylt Require Resolve.PAst Resolve.Resolver Resolve.AnnErase Resolve.AnnEraseProofs Resolve.AnnEraseLua.
+
+Theorem C08_resolve_erase_ann : forall hd hp hr : Sylt.Resolve.PAst.pty -> Sylt.Resolve.PAst.pty,
+  (forall st t t', Sylt.Resolve.Resolver.ty_r st t = Sylt.Resolve.Resolver.Ok t' ->
+                   exists t'', Sylt.Resolve.Resolver.ty_r st (hd t) = Sylt.Resolve.Resolver.Ok t'') ->
+  (forall st t t', Sylt.Resolve.Resolver.ty_r st t = Sylt.Resolve.Resolver.Ok t' ->
+                   exists t'', Sylt.Resolve.Resolver.ty_r st (hp t) = Sylt.Resolve.Resolver.Ok t'') ->
+  (forall st t t', Sylt.Resolve.Resolver.ty_r st t = Sylt.Resolve.Resolver.Ok t' ->
+                   exists t'', Sylt.Resolve.Resolver.ty_r st (hr t) = Sylt.Resolve.Resolver.Ok t'') ->
+  forall fl ast r,
+  Sylt.Resolve.Resolver.resolve fl ast = Sylt.Resolve.Resolver.Ok r ->
+  exists r', Sylt.Resolve.Resolver.resolve fl (Sylt.Resolve.AnnErase.erase_ann hd hp hr ast) = Sylt.Resolve.Resolver.Ok r'
+             /\ same_modulo_annotations r r'.
+Proof. exact Sylt.Resolve.AnnEraseProofs.resolve_erase_ann. Qed.
+
+Theorem C08_resolve_erase_all : forall fl ast r,
+  Sylt.Resolve.Resolver.resolve fl ast = Sylt.Resolve.Resolver.Ok r ->
+  exists r', Sylt.Resolve.Resolver.resolve fl (Sylt.Resolve.AnnErase.erase_all_annotations ast) = Sylt.Resolve.Resolver.Ok r'
+             /\ same_modulo_annotations r r'.
+Proof. exact Sylt.Resolve.AnnEraseProofs.resolve_erase_all. Qed.
+
+Theorem C08_resolver_then_bytes : forall fl fuel_tc fuel req ast r1 r2 out1 out2,
+  Sylt.Resolve.Resolver.resolve fl ast = Sylt.Resolve.Resolver.Ok r1 ->
+  Sylt.Resolve.Resolver.resolve fl (Sylt.Resolve.AnnErase.erase_all_annotations ast) = Sylt.Resolve.Resolver.Ok r2 ->
+  compile_after_order (Emit.backend fuel req) fuel_tc r1 = COk out1 ->
+  compile_after_order (Emit.backend fuel req) fuel_tc r2 = COk out2 ->
+  out1 = out2.
+Proof. exact Sylt.Resolve.AnnEraseLua.resolver_then_bytes_all. Qed.
+
+(* the same for any choice of the kinds of annotations to erase *)
+Theorem C08_resolver_then_bytes_kinds : forall fl (hd hp hr : Sylt.Resolve.PAst.pty -> Sylt.Resolve.PAst.pty)
+    fuel_tc fuel req ast r1 r2 out1 out2,
+  (forall st t t', Sylt.Resolve.Resolver.ty_r st t = Sylt.Resolve.Resolver.Ok t' ->
+                   exists t'', Sylt.Resolve.Resolver.ty_r st (hd t) = Sylt.Resolve.Resolver.Ok t'') ->
+  (forall st t t', Sylt.Resolve.Resolver.ty_r st t = Sylt.Resolve.Resolver.Ok t' ->
+                   exists t'', Sylt.Resolve.Resolver.ty_r st (hp t) = Sylt.Resolve.Resolver.Ok t'') ->
+  (forall st t t', Sylt.Resolve.Resolver.ty_r st t = Sylt.Resolve.Resolver.Ok t' ->
+                   exists t'', Sylt.Resolve.Resolver.ty_r st (hr t) = Sylt.Resolve.Resolver.Ok t'') ->
+  Sylt.Resolve.Resolver.resolve fl ast = Sylt.Resolve.Resolver.Ok r1 ->
+  Sylt.Resolve.Resolver.resolve fl (Sylt.Resolve.AnnErase.erase_ann hd hp hr ast) = Sylt.Resolve.Resolver.Ok r2 ->
+  compile_after_order (Emit.backend fuel req) fuel_tc r1 = COk out1 ->
+  compile_after_order (Emit.backend fuel req) fuel_tc r2 = COk out2 ->
+  out1 = out2.
+Proof. exact Sylt.Resolve.AnnEraseLua.resolver_then_bytes. Qed.
+
+Theorem C08_seed_example : forall fl,
+  Sylt.Resolve.AnnErase.erase_ann Sylt.Resolve.AnnErase.implied (fun t => t) (fun t => t) Sylt.Resolve.AnnEraseLua.seed_annotated
+  = Sylt.Resolve.AnnEraseLua.seed_plain
+  /\ exists r1 r2 g l,
+       Sylt.Resolve.Resolver.resolve fl Sylt.Resolve.AnnEraseLua.seed_annotated = Sylt.Resolve.Resolver.Ok r1
+       /\ Sylt.Resolve.Resolver.resolve fl Sylt.Resolve.AnnEraseLua.seed_plain = Sylt.Resolve.Resolver.Ok r2
+       /\ Sylt.Resolve.AnnEraseLua.inner_step r1 = Some (g, l) /\ Sylt.Resolve.AnnEraseLua.inner_step r2 = Some (g, l)
+       /\ g <> l
+       /\ Sylt.Resolve.AnnEraseLua.var_is_global_step r1 g = true /\ Sylt.Resolve.AnnEraseLua.var_is_global_step r2 g = true
+       /\ r1 <> r2 /\ same_modulo_annotations r1 r2.
+Proof. exact Sylt.Resolve.AnnEraseLua.seed_example. Qed.
+
+Print Assumptions C08_resolve_erase_ann.
+Print Assumptions C08_resolve_erase_all.
+Print Assumptions C08_resolver_then_bytes.
+Print Assumptions C08_resolver_then_bytes_kinds.
+Print Assumptions C08_seed_example.
